@@ -1038,8 +1038,15 @@ func doQueue(t *testing.T, run *emit.Run, p *pool, r *rand.Rand, hostile bool) {
 				m = new(big.Int).Neg(m)
 			}
 		}
-		if err := e.tre.SetRelayerFee(e.ctx, p.addrs[i], &treasurytypes.RelayerFeeSetting{ValAddress: p.strs[i],
-			Fees: []treasurytypes.RelayerFeeSetting_FeeSetting{{ChainReferenceId: chain, Multiplicator: dec(m)}}}); err != nil {
+		qfees := []treasurytypes.RelayerFeeSetting_FeeSetting{{ChainReferenceId: chain, Multiplicator: dec(m)}}
+		twin := treasurytypes.RelayerFeeSetting_FeeSetting{ChainReferenceId: strings.ToUpper(chain), Multiplicator: dec(new(big.Int).Mul(bi(7), e18))}
+		switch r.Intn(3) { // a case twin of the chain id with another price before / after the real entry
+		case 1:
+			qfees = append([]treasurytypes.RelayerFeeSetting_FeeSetting{twin}, qfees...)
+		case 2:
+			qfees = append(qfees, twin)
+		}
+		if err := e.tre.SetRelayerFee(e.ctx, p.addrs[i], &treasurytypes.RelayerFeeSetting{ValAddress: p.strs[i], Fees: qfees}); err != nil {
 			t.Fatal(err)
 		}
 		feeRows = append(feeRows, emit.Pair(emit.ZI(int64(i)), emit.Z(m)))
